@@ -168,6 +168,65 @@ class Outcome:
         return f"raised {type(self.exc).__name__}: {str(self.exc):.160}"
 
 
+_REACH_LINES = {}
+
+
+def _reach_tracer(contract, fn, env, arguments, bad):
+    """Native twin of the `reach` ghost: when the traced function is about to execute a statement whose source starts with the
+    marker, the clause is evaluated over the parameters' entry values and the current locals (same scoping as the engine)."""
+    from pyvc.front import find_function
+    key = (contract.key, contract.inst)
+    if key not in _REACH_LINES:
+        try:
+            fi = find_function(contract.key)
+            marks = {}
+            for nd in ast.walk(fi.node):
+                if isinstance(nd, ast.stmt):
+                    try:
+                        src = ast.unparse(nd)
+                    except Exception:
+                        continue
+                    for pat, cond in contract.ghost["reach"]:
+                        if src.startswith(pat):
+                            marks.setdefault(nd.lineno, []).append((pat, cond))
+            _REACH_LINES[key] = (fi.node.name, marks)
+        except Exception:
+            _REACH_LINES[key] = (None, {})
+    fname, marks = _REACH_LINES[key]
+    if not marks:
+        return None
+    try:
+        code = getattr(inspect.unwrap(getattr(fn, "func", fn)), "__code__", None)        # functools.partial / @wraps wrappers
+    except Exception:
+        code = None
+    entry = dict(arguments)
+
+    def local(frame, event, arg):
+        if event == "line" and frame.f_lineno in marks:
+            scope = dict(env)
+            scope.update({k: v for k, v in frame.f_locals.items() if k not in entry})
+            scope.update(entry)
+            for pat, cond in marks[frame.f_lineno]:
+                try:
+                    with warnings.catch_warnings():
+                        warnings.simplefilter("ignore")
+                        ok = ev(cond, scope)
+                except Exception:
+                    continue            # the clause cannot be evaluated here: no verdict
+                if not ok:
+                    bad.append((pat, cond, frame.f_lineno))
+        return local
+
+    armed = [True]
+
+    def tracer(frame, event, arg):
+        if event == "call" and frame.f_code is code and armed[0]:
+            armed[0] = False            # the outermost activation only: recursive activations have other arguments
+            return local
+        return None
+    return tracer
+
+
 def check_call(contract, fn, args, kwargs=None, ns=None, exc_classes=None):
     """Run fn(*args) under its contract. Returns None (ok), 'skip' (requires false) or a dict describing
     the violated clause."""
@@ -207,10 +266,21 @@ def check_call(contract, fn, args, kwargs=None, ns=None, exc_classes=None):
     except Exception:
         return "skip"
     before = {k: full_state(v) for k, v in bound.arguments.items()}
+    reach_bad = []
+    tracer = _reach_tracer(contract, fn, env, bound.arguments, reach_bad) if contract.ghost.get("reach") else None
     with warnings.catch_warnings(record=True) as wlist:
         warnings.simplefilter("always")
         try:
-            rv = fn(*args, **kwargs)
+            if tracer is not None:
+                import sys
+                old_trace = sys.gettrace()
+                sys.settrace(tracer)
+                try:
+                    rv = fn(*args, **kwargs)
+                finally:
+                    sys.settrace(old_trace)
+            else:
+                rv = fn(*args, **kwargs)
             if inspect.isgenerator(rv):
                 rv = list(rv)        # generators have eager list semantics in the contracts
             out = Outcome("return", rv)
@@ -224,6 +294,9 @@ def check_call(contract, fn, args, kwargs=None, ns=None, exc_classes=None):
         return {"contract": contract.name, "clause": clause, "detail": detail, "outcome": repr(out),
                 "args": {k: repr(v)[:300] for k, v in bound.arguments.items()}}
 
+    if reach_bad:
+        pat, cond, line = reach_bad[0]
+        return viol("reach", f"at `{pat}...` (line {line}) the clause `{cond}` is false")
     for k in before:
         root_ok = any(m == k or m.startswith(k + ".") or m.startswith(k + "[") for m in contract.modifies)
         if before[k] != after[k] and not root_ok:
@@ -259,7 +332,7 @@ def check_call(contract, fn, args, kwargs=None, ns=None, exc_classes=None):
             exempt = False
             if unless:
                 try:
-                    exempt = bool(eval(compile_expr(unless), env2)) if "compile_expr" in globals() else bool(ev(unless, env2))
+                    exempt = bool(ev(unless, env2))
                 except Exception:
                     exempt = True
             rv = out.value
